@@ -103,6 +103,10 @@ func genEdits(r *rand.Rand, g *SpecGen, marker string, nonEmpty bool) specs.Cont
 				e.Env = append(e.Env, fmt.Sprintf("M_%s_%d=%s", strings.ToUpper(sanitize(marker)), i, str("env", fmt.Sprintf("v%d", r.Intn(100)))))
 			}
 		}
+		if chance(r, 25) {
+			// a variable every Spec and device may set, each to a value of its own
+			e.Env = append(e.Env, "SHARED_MODE="+strings.ToLower(sanitize(marker)))
+		}
 		if chance(r, 45) {
 			n := 1 + r.Intn(2)
 			for i := 0; i < n; i++ {
